@@ -21,7 +21,7 @@ type lzHandle struct {
 	res    *lazyproto.DecodeResult
 	input  []byte // the bytes this result was decoded from (nil result: empty)
 	def    *lzDef
-	root   int  // handle of the root this (nested) handle belongs to
+	root   int // handle of the root this (nested) handle belongs to
 	nested bool
 	dead   bool
 }
